@@ -658,7 +658,7 @@ theorem pow_le_rn53 {n k : Nat} (h : 2 ^ k ≤ n) : 2 ^ k ≤ rn53 n := le_rn53_
 
 theorem rn53_le_pow {n k : Nat} (h : n ≤ 2 ^ k) : rn53 n ≤ 2 ^ k := rn53_le_of_le (rep_two_pow k) h
 
-/-- `roundQ` of a positive quotient `≥ 1/2`-ish: positivity of `rn53` -/
+/-- `rn53` of a positive number is positive -/
 theorem rn53_pos {n : Nat} (h : 0 < n) : 0 < rn53 n :=
   le_rn53_of_le (x := 1) (rep_of_lt (by decide)) h
 
@@ -834,6 +834,86 @@ theorem rep_sub_rn53_sub {a b : Nat} (ha : Rep a) (hb : Rep b) (h : b ≤ a) :
 /-- uniqueness: a representable `x` strictly within half an ulp of `n` is `rn53 n` -/
 theorem rn53_eq_of_abs_lt {n x : Nat} (hx : Rep x)
     (h : 2 * |(x : Int) - n| < ((2 ^ (Nat.log2 n - 52) : Nat) : Int)) : rn53 n = x := by
-  sorry
+  have hg := rep_grid_cases n 1 Nat.one_pos hx
+  rw [Nat.div_one, Nat.one_mul] at hg
+  rw [rn53_eq]
+  have hU := Nat.two_pow_pos (Nat.log2 n - 52)
+  have key : 2 * x < 2 * n + 2 ^ (Nat.log2 n - 52) ∧ 2 * n < 2 * x + 2 ^ (Nat.log2 n - 52) := by
+    generalize 2 ^ (Nat.log2 n - 52) = U at h
+    rcases abs_cases ((x : Int) - n) with ⟨e1, _⟩ | ⟨e1, _⟩ <;> rw [e1] at h <;> omega
+  rcases hg with ⟨j, rfl⟩ | ⟨h1, h2⟩
+  · rw [Nat.mul_comm _ j] at key ⊢
+    congr 1
+    generalize 2 ^ (Nat.log2 n - 52) = U at *
+    apply rint_eq_of _ _ _ hU
+    · omega
+    · omega
+    · intro ht; exfalso; omega
+  · exfalso
+    obtain ⟨E', hE'⟩ : ∃ E', Nat.log2 n - 52 = E' + 1 := by
+      rcases Nat.eq_zero_or_pos (Nat.log2 n - 52) with h0 | h0
+      · rw [h0] at h1 h2 key; omega
+      · exact ⟨Nat.log2 n - 52 - 1, by omega⟩
+    rw [hE', Nat.pow_succ] at h1 h2 key
+    have hU' := Nat.two_pow_pos E'
+    obtain ⟨j, rfl⟩ := hx.dvd_of_le (e := E') (by omega)
+    have hj : j < 2 ^ 53 := by
+      apply Nat.lt_of_mul_lt_mul_left (a := 2 ^ E'); omega
+    have := Nat.mul_le_mul_left (2 ^ E') (show j + 1 ≤ 2 ^ 53 from hj)
+    rw [Nat.mul_add] at this
+    omega
+
+/-- converse of `rep_mul_pow2`: dividing out a power of two preserves representability -/
+theorem Rep.of_mul_pow2 {y k : Nat} (h : Rep (y * 2 ^ k)) : Rep y := by
+  rcases Nat.lt_or_ge y (2 ^ 53) with hy | hy
+  · exact rep_of_lt hy
+  · have hs := log2_sub_spec (n := y) (by omega)
+    generalize Nat.log2 y - 52 = e at hs
+    have hk := Nat.two_pow_pos k
+    have h1 : 2 ^ 52 * 2 ^ (e + k) ≤ y * 2 ^ k := by
+      rw [Nat.pow_add, ← Nat.mul_assoc]; exact Nat.mul_le_mul_right _ hs.1
+    have h2 := h.dvd_of_le h1
+    rw [Nat.pow_add] at h2
+    exact rep_of_dvd_of_le (Nat.dvd_of_mul_dvd_mul_right hk h2) (Nat.le_of_lt hs.2)
+
+theorem rep_mul_pow2_iff {y k : Nat} : Rep (y * 2 ^ k) ↔ Rep y :=
+  ⟨Rep.of_mul_pow2, rep_mul_pow2 k⟩
+
+/-- two distinct representable numbers are at least one ulp (of the smaller) apart -/
+theorem Rep.ulp_le_sub_of_lt {x y : Nat} (hx : Rep x) (hy : Rep y) (h : x < y) :
+    2 ^ (Nat.log2 x - 52) ≤ y - x :=
+  Nat.le_of_dvd (by omega) (Nat.dvd_sub (hy.ulp_dvd_of_le (Nat.le_of_lt h)) hx.dvd_ulp')
+
+/-- relative error of `roundQ` is at most `2^-53` once `p/q ≥ 2^52` (two `Nat` inequalities) -/
+theorem roundQ_rel_bounds {p q : Nat} (hq : 0 < q) (h : 2 ^ 52 * q ≤ p) :
+    2 ^ 53 * (roundQ p q * q) ≤ 2 ^ 53 * p + p ∧ 2 ^ 53 * p ≤ 2 ^ 53 * (roundQ p q * q) + p := by
+  have hb := roundQ_bounds p q hq
+  have hs := roundQ_exp_le hq h
+  generalize q * 2 ^ (Nat.log2 (p / q) - 52) = B at hb hs
+  omega
+
+/-! ## overflow threshold -/
+
+/-- Bridge between the core `Nat` power instance (used by the Mathlib-free `TFV.Prelude`) and the
+`Monoid.Pow ℕ` instance that `2 ^ k` elaborates to once Mathlib is imported.  The two are definitionally
+equal, but for *literal* exponents above 256 (e.g. `2^1074`, `2^2045`) the unifier tries to evaluate the
+power and runs out of recursion depth; `rw [pow_core_eq _ 2045]` converts explicitly instead. -/
+theorem pow_core_eq (a k : Nat) :
+    @HPow.hPow Nat Nat Nat (@instHPow Nat Nat (@instPowNat Nat instNatPowNat)) a k = a ^ k := rfl
+
+/-- `maxFin` with the Mathlib power instance -/
+theorem maxFin_eq : maxFin = (2 ^ 53 - 1) * 2 ^ 2045 := by
+  unfold maxFin; rw [pow_core_eq 2 2045]
+
+/-- the largest finite double is representable -/
+theorem rep_maxFin : Rep maxFin := by
+  rw [maxFin_eq]
+  exact rep_mul_pow_of_lt (m := 2 ^ 53 - 1) 2045 (by decide)
+
+/-- rounding a value in the finite range stays in the finite range -/
+theorem roundQ_le_maxFin {p q : Nat} (hq : 0 < q) (h : p ≤ maxFin * q) : roundQ p q ≤ maxFin :=
+  roundQ_le_of_le hq rep_maxFin h
+
+theorem rn53_le_maxFin {n : Nat} (h : n ≤ maxFin) : rn53 n ≤ maxFin := rn53_le_of_le rep_maxFin h
 
 end F64
